@@ -94,6 +94,23 @@ VARS = {
 FEQ_OPTIONS = {"MeteredOnRamp": ("in", "out"), "SimplifiedMeteredOnRamp": ("limited", "unlimited")}
 
 
+def install_admissible_facts():
+    """admissible domain of C07 (DESIGN App. A): positive link parameters, rho_crit < rho_max,
+    non-negative densities, speeds, queues, demands and desired flows, metering rate in [0, 1]"""
+    from pyvc import vc
+
+    pos = lambda t: T.lt(0, t)
+    nonneg = lambda t: T.le(0, t)
+    facts = [("uf:f." + f, pos) for f in ("lam", "L", "rho_crit", "v_free", "a", "turnrate")]
+    facts.append(("uf:f.rho_max", lambda t: T.lt(FIELD_REAL["rho_crit"](t.args[0]), t)))
+    facts.append(("uf:f.C", nonneg))
+    facts.append(("uf:f.alpha", lambda t: T.lt(-1, t)))
+    facts += [("uf:st.rho", nonneg), ("uf:st.v", nonneg), ("uf:act.v_ctrl", nonneg)]
+    facts += [("uf:sc." + k, nonneg) for k in ("w", "d", "r", "q", "v_ctrl")]
+    facts.append(("uf:sc.r", lambda t: T.le(t, 1)))
+    vc.TERM_FACTS[:] = facts
+
+
 def isa(ref_term, names):
     return T.or_(*[T.eq(cls_tag(ref_term), TAGS[n]) for n in names])
 
@@ -330,11 +347,14 @@ class HeapRec:
 
 
 class GhostNet:
-    def __init__(self, interp, valid=True, all_init=True, name="net"):
+    def __init__(self, interp, valid=True, all_init=True, name="net", admissible=False):
         self.interp = interp
         self.heap = Heap(interp, self)
         self.valid = valid
         self.all_init = all_init
+        self.admissible = admissible
+        if admissible:
+            install_admissible_facts()
         self.name = name
         self.touched = set()
 
